@@ -297,32 +297,53 @@ example :
 
 /-! ### the refinement theorem, specialised: sessions after any history -/
 
-open Mqtt.Proofs.BrokerRefine (okRun specRun okEv specPrior) in
+open Mqtt.Proofs.BrokerRefine (okRun specRun okEv specPrior liveSess) in
 open Mqtt.Spec.Broker (Accepts addHeld) in
 /-- **Refinement (Proofs/BrokerRefine.lean: `Broker_refines_spec`) for C10.**
 After any history admitted by `okRun` (see C01_refines_reference for the side
 condition), an accepted CONNECT admitted by `okEv` (connection number not in
-use, no other live connection with the supplied client identifier, will topic a
-`good` topic name) is answered by exactly one packet: CONNACK code 0 with
-SessionPresent = 1 precisely when CleanSession = 0 and the reference broker
-stores a session for the client identifier (`specPrior`: it does so exactly for
-the identifiers whose last connection ended with CleanSession = 0 - `endConn`);
-and afterwards the subscription trie holds exactly what the reference broker
-holds: the subscriptions of everybody else, and for the new connection the
-stored subscriptions of the resumed session at their granted QoS (`HeldInv`) -
-so that, by C01_refines_reference, the resumed client is forwarded matching
-PUBLISHes without subscribing again, and a clean or first-time client nothing. -/
+use, will topic a `good` topic name - a live connection with the same client
+identifier is *admitted*) first takes over: if the client identifier belongs to
+a live connection `c0` (there is at most one: `R.cidUniq` is an invariant), that
+connection is ended on both sides - `stop` / `endConn`, not gracefully - and the
+outputs of that end come first; otherwise nothing happens (MQTT-3.1.4-2).  Then
+exactly one packet: CONNACK code 0 with SessionPresent = 1 precisely when
+CleanSession = 0 and the reference broker stores a session for the client
+identifier *after the take-over* (`specPrior`: it does so exactly for the
+identifiers whose last connection ended with CleanSession = 0 - after a take-over:
+iff the connection taken over had CleanSession = 0).  Afterwards the subscription
+trie holds exactly what the reference broker holds: the subscriptions of
+everybody else - none of the connection taken over -, and for the new connection
+the stored subscriptions of the resumed session at their granted QoS (`HeldInv`). -/
 theorem C10_refines_reference (es : List Ev) (hok : okRun {} es = true) (c : Nat) (req : Connect) (a : Bool)
     (he : okEv (run {} es).1 (.first c (.connect req) a) = true) (hacc : accepts (.connect req) a = true) :
     Accepts (Mqtt.Spec.Broker.step (specRun {} es).1 (.first c (.connect req) a)).2
       (step (run {} es).1 (.first c (.connect req) a)).2 ∧
-    (step (run {} es).1 (.first c (.connect req) a)).2 =
-      [.send c (.connack (specPrior (specRun {} es).1 c req).isSome 0)] ∧
+    (step (run {} es).1 (.first c (.connect req) a)).2 = (takeOver (run {} es).1 (.connect req) a).2 ++
+      [.send c (.connack (specPrior (Mqtt.Spec.Broker.takeOver (specRun {} es).1 (.connect req) a).1 c req).isSome 0)] ∧
     Mqtt.Proofs.Broker.HeldInv (step (run {} es).1 (.first c (.connect req) a)).1.topics.sroot
-      (((specPrior (specRun {} es).1 c req).getD ([], [])).1.foldl (fun h p => addHeld h c p.1 p.2)
-        (specRun {} es).1.held) := by
+      (((specPrior (Mqtt.Spec.Broker.takeOver (specRun {} es).1 (.connect req) a).1 c req).getD ([], [])).1.foldl
+        (fun h p => addHeld h c p.1 p.2) (Mqtt.Spec.Broker.takeOver (specRun {} es).1 (.connect req) a).1.held) ∧
+    ((takeOver (run {} es).1 (.connect req) a = ((run {} es).1, []) ∧
+      Mqtt.Spec.Broker.takeOver (specRun {} es).1 (.connect req) a = ((specRun {} es).1, [])) ∨
+     ∃ c0 σ k, liveSess (run {} es).1 c0 = some σ ∧ σ.cid = req.clientId ∧
+       Mqtt.Spec.Broker.getConn (specRun {} es).1 c0 = some k ∧ k.clean = σ.clean ∧
+       takeOver (run {} es).1 (.connect req) a = stop (run {} es).1 c0 ∧
+       Mqtt.Spec.Broker.takeOver (specRun {} es).1 (.connect req) a =
+         Mqtt.Spec.Broker.endConn (specRun {} es).1 c0 false ∧
+       (specPrior (Mqtt.Spec.Broker.takeOver (specRun {} es).1 (.connect req) a).1 c req).isSome =
+         (!req.clean && !k.clean)) := by
   have hR := Mqtt.Proofs.BrokerRefine.reach es hok
-  obtain ⟨c1, c2⟩ := Mqtt.Proofs.BrokerRefine.connect_refines hR c req a he hacc
-  exact ⟨(Mqtt.Proofs.BrokerRefine.reach_step es hok _ he).2.1, c1, c2⟩
+  obtain ⟨_, c1, _, c3⟩ := Mqtt.Proofs.BrokerRefine.connect_refines hR c req a he hacc
+  refine ⟨(Mqtt.Proofs.BrokerRefine.reach_step es hok _ he).2.1, c1, c3, ?_⟩
+  have hdead : (run {} es).1.alive c = false := by
+    simp only [okEv, Bool.and_eq_true, decide_eq_true_eq, Bool.not_eq_true'] at he
+    exact he.1.2
+  obtain ⟨_, _, _, hto⟩ := Mqtt.Proofs.BrokerRefine.takeOver_refines hR c req a hacc hdead
+  rcases hto with h0 | ⟨c0, σ, fs, fo, hσ, hcid, hne, t1, t2, _⟩
+  · exact .inl h0
+  · obtain ⟨k, hk, hkc, hp⟩ := Mqtt.Proofs.BrokerRefine.takeOver_prior hR c req hne
+      (Mqtt.Proofs.BrokerRefine.realCid_of_accepts hacc hne) c0 σ hσ hcid
+    exact .inr ⟨c0, σ, k, hσ, hcid, hk, hkc, t1, t2, by rw [t2]; exact hp⟩
 
 end Mqtt.Properties.C10
